@@ -47,8 +47,79 @@ def _jsonable(v):
     return v
 
 
+_SEM = None  # global CPU-slot semaphore shared by every process of one run (set in run_vcs before forking)
+
+
+class _Slot:
+    def __enter__(self):
+        if _SEM is not None:
+            _SEM.acquire()
+
+    def __exit__(self, *a):
+        if _SEM is not None:
+            _SEM.release()
+
+
+def _discharge(tasks, solve_task, nchild):
+    """Discharge independent obligations. With nchild > 1 the process forks nchild children (os.fork: the SMT terms are
+    inherited, nothing is serialised); children pull task indices from a shared counter, hold one global CPU slot per
+    query, and write their records to a scratch file each. A child that dies leaves its tasks unrecorded -> engine error."""
+    import json
+    import shutil
+    import tempfile
+
+    nchild = min(nchild, len(tasks))
+    if nchild <= 1:
+        out = []
+        for t in tasks:
+            with _Slot():
+                out.append(solve_task(*t))
+        return out
+    ctr = mp.get_context("fork").Value("i", 0)
+    d = tempfile.mkdtemp(prefix="pyvc_")
+    pids = []
+    try:
+        for c in range(nchild):
+            pid = os.fork()
+            if pid == 0:
+                code = 0
+                try:
+                    with open(os.path.join(d, "%d.jsonl" % c), "w") as fh:
+                        while True:
+                            with ctr.get_lock():
+                                i = ctr.value
+                                ctr.value += 1
+                            if i >= len(tasks):
+                                break
+                            with _Slot():
+                                rec = solve_task(*tasks[i])
+                            fh.write(json.dumps([i, rec]) + "\n")
+                            fh.flush()
+                except BaseException:
+                    traceback.print_exc()
+                    code = 1
+                os._exit(code)
+            pids.append(pid)
+        bad = 0
+        for pid in pids:
+            _, st = os.waitpid(pid, 0)
+            bad += st != 0
+        recs = {}
+        for c in range(nchild):
+            fp = os.path.join(d, "%d.jsonl" % c)
+            if os.path.exists(fp):
+                for line in open(fp):
+                    i, rec = json.loads(line)
+                    recs[i] = rec
+        if bad or len(recs) != len(tasks):
+            raise RuntimeError("obligation workers failed: %d bad exits, %d/%d records" % (bad, len(recs), len(tasks)))
+        return [recs[i] for i in range(len(tasks))]
+    finally:
+        shutil.rmtree(d, ignore_errors=True)
+
+
 def _run_vc(args):
-    key, timeout_ms, crosscheck = args
+    key, timeout_ms, crosscheck, nchild = args
     vc = _VCS[key]
     t0 = time.time()
     out = {"key": key, "clause": vc.clause, "name": vc.name, "obligations": [], "paths": 0, "error": None, "unsupported": None,
@@ -78,7 +149,8 @@ def _run_vc(args):
             return vc.thunk(I)
 
         try:
-            paths = ex.explore(thunk)
+            with _Slot():
+                paths = ex.explore(thunk)
         except ip.Unsupported as e:
             out["unsupported"] = str(e)
             return out
@@ -86,14 +158,18 @@ def _run_vc(args):
         to = vc.timeout_ms or timeout_ms
         hyps = list(vc.pre) + list(vc.axioms)
 
-        def decide(name, fmls, goal, kind="post"):
+        tasks = []
+
+        def decide(name, fmls, goal, kind="post"):  # deferred: the obligations of one VC are discharged in parallel below
+            tasks.append((name, list(fmls), goal, kind))
+
+        def solve_task(name, fmls, goal, kind):
             r = solve.check_unsat(list(fmls) + [z3.Not(goal)], timeout_ms=to, crosscheck=crosscheck)
             rec = {"name": name, "status": r.status, "backend": r.backend, "ms": round(r.ms, 1), "kind": kind, "note": r.note}
             if r.status == "sat" and r.model is not None:
                 rec["model"] = {k: _jsonable(solve.model_value(r.model, v)) for k, v in vc.inputs.items()}
                 rec["solver_output"] = str(r.model)[:2000]
-            out["obligations"].append(rec)
-            return r
+            return rec
 
         # vacuity guard 1: preconditions satisfiable
         g = solve.check_unsat(hyps, timeout_ms=min(to, 10000), cvc5_fallback=False, want_model=False)
@@ -135,6 +211,7 @@ def _run_vc(args):
                 decide("%s/%s" % (vc.name, pname), hyps, z3.BoolVal(bool(real_paths)))
         for lname, lh, lg in vc.lemmas:
             decide("%s/lemma:%s" % (vc.name, lname), list(lh), lg, kind="lemma")
+        out["obligations"] = _discharge(tasks, solve_task, nchild)
         # vacuity guard 2: must-fail twins
         for tname, fn in vc.twins:
             goals = []
@@ -145,8 +222,11 @@ def _run_vc(args):
                 if g_ is False:
                     g_ = z3.BoolVal(False)
                 goals.append(z3.Implies(z3.And(p.pc) if p.pc else z3.BoolVal(True), g_))
-            r = solve.check_unsat(hyps + [z3.Not(z3.And(goals) if goals else z3.BoolVal(True))], timeout_ms=min(to, 10000), cvc5_fallback=False, want_model=False)
-            out["guards"].append({"name": "twin:%s" % tname, "ok": r.status == "sat", "status": r.status})
+            with _Slot():
+                r = solve.check_unsat(hyps + [z3.Not(z3.And(goals) if goals else z3.BoolVal(True))], timeout_ms=min(to, 10000), cvc5_fallback=False, want_model=False)
+            # a must-fail twin passes its guard when it is NOT discharged: refuted (sat) or, under quantified hypotheses where no
+            # model can be built, left open (unknown). Contradictory hypotheses would discharge it (unsat) like everything else.
+            out["guards"].append({"name": "twin:%s" % tname, "ok": r.status != "unsat", "status": r.status})
     except Exception:
         out["error"] = traceback.format_exc(limit=8)
     out["wall_ms"] = round((time.time() - t0) * 1000)
@@ -172,12 +252,18 @@ def run_vcs(ctx: core.Ctx, vcs: List[VC], text_by_clause: Optional[Dict[str, str
         key = "%s::%s" % (v.clause, v.name)
         assert key not in _VCS, "duplicate VC %s" % key
         _VCS[key] = v
-    jobs = [(k, timeout_ms, crosscheck) for k in _VCS]
-    if ctx.jobs > 1 and len(jobs) > 1:
-        with mp.get_context("fork").Pool(min(ctx.jobs, len(jobs))) as pool:
-            results = pool.map(_run_vc, jobs, chunksize=1)
-    else:
-        results = [_run_vc(j) for j in jobs]
+    global _SEM
+    nchild = 1 if ctx.jobs <= 1 else min(ctx.jobs, max(2, 2 * ctx.jobs // len(_VCS)))
+    jobs = [(k, timeout_ms, crosscheck, nchild) for k in _VCS]
+    _SEM = mp.get_context("fork").BoundedSemaphore(ctx.jobs) if ctx.jobs > 1 else None
+    try:
+        if ctx.jobs > 1 and len(jobs) > 1:
+            with mp.get_context("fork").Pool(min(ctx.jobs, len(jobs))) as pool:
+                results = pool.map(_run_vc, jobs, chunksize=1)
+        else:
+            results = [_run_vc(j) for j in jobs]
+    finally:
+        _SEM = None
     by_clause: Dict[str, List[dict]] = {}
     for r in results:
         by_clause.setdefault(r["clause"], []).append(r)
